@@ -21,6 +21,7 @@ func runC01(r *engine.Run) {
 	r.Rule("DOM-size", "in Insert, the write lock, insert, insertLeaf and setRoot are reached only when len(marshalled value) > MPTMaxAllowableNodeSize tested false and len == 0 tested false; a nil value and an empty encoding route to Delete(path); the value's MarshalMsg is called only where the value tested non-nil, each route to Delete is taken only where the value tested nil or its encoding tested empty, and setRoot stores its argument into the root field")
 	r.Rule("DEP-absent", "deleting at an exhausted path on a branch returns ErrValueNotPresent under a test of the branch's HasValue(); deleteAtNode's leaf arm returns ErrValueNotPresent when the path comparison fails; delete of a nil key returns ErrValueNotPresent")
 	r.Rule("DOM-ext-nonempty", "every construction of an extension node (NewExtensionNode, insertExtension, store to ExtensionNode.Path in the trie operations) receives a path established non-empty: a literal/append/concat with at least one element, a prefix under a dominating len != 0 test, a suffix X[k:] under a dominating len(X) != k test, an existing extension's path, or a parameter that is non-empty at every call site; an empty-path extension makes its subtree unreachable for lookups")
+	r.Rule("FRESH-bytes", "see C03: the byte slices handed out by the node accessors (MarshalMsg, Encode, GetHashBytes, GetValueBytes in core/util) are new buffers on every return: nil, make/conversion results, results of calls that produce new buffers, or appends to such; never a field, element, global or map entry. FRESH-node relies on this, and callers of GetNodeValueRaw own (and may overwrite) the slice they get")
 	r.Rule("FRESH-node", "see C03: no trie operation writes in place to node memory shared with the store, the node cache, a pending change or a caller (aliasing changes what other lookups return)")
 	r.Rule("WHO-livedelete", "see C04: a node the rebuilt trie still references is never removed from the store (every path below it would become unreadable)")
 	r.Rule("DOM-lift", "liftOnlyChild (which replaces a branch by its only child and does not carry a value) is called only with a branch that provably holds no value: SetValue(nil) on that object dominates the call, or it is a clone of a branch whose HasValue() tested false on every path to the call")
